@@ -74,6 +74,8 @@ def canon(tag, v, env):
         return "u" + (str(int(v)) if float(v).is_integer() else float(v).hex())
     if tag == "numlist":
         return "L(" + ",".join(canon("number", x, env) for x in v) + ")"
+    if tag == "gen":
+        return "g" + str(env["gtokens"][id(v)])
     if tag == "complex":
         return "c" + repr(complex(v))
     raise ValueError(tag)
@@ -91,10 +93,33 @@ GEN_SPECS = {
     "GD": ("fresh", None, [("m", "module", None), ("k", "int", 0)]),
     "GX": ("fresh", None, [("c", "complex", None), ("k", "int", 0)]),     # a value the naming serialiser may refuse: calls may raise
     "GM": ("fresh", None, [("n", "number", None), ("v", "numlist", "LIST")]),
+    "GG": ("fresh", None, [("g", "gen", None), ("k", "int", 0)]),        # a Generator-valued parameter: like-named generators of different Python modules
     "GU": ("uncached", None, [("a", "int", None)]),                       # enable_cache=False, result depends on more than its parameters
 }
 MAYRAISE = {"GX"}
 KINDS = {g: s[0] for g, s in GEN_SPECS.items()}
+
+
+_FOREIGN = []
+
+
+def foreign_generators():
+    """generators defined in two separate Python modules (written to the work directory and imported): pa.Unit, pb.Unit - same function name -, pa.Other"""
+    if not _FOREIGN:
+        import importlib
+        import os
+        import sys
+        root = WORK / "c09mods" / str(os.getpid())
+        for pkg, body in (("c09pa", "Unit"), ("c09pb", "Unit")):
+            d = root / pkg
+            d.mkdir(parents=True, exist_ok=True)
+            src = ("import hdl21 as h\n\n\n@h.generator\ndef Unit(p: h.HasNoParams) -> h.Module:\n    m = h.Module()\n    m.a = h.Signal(width=%d)\n    return m\n\n\n"
+                   "@h.generator\ndef Other(p: h.HasNoParams) -> h.Module:\n    m = h.Module()\n    m.b = h.Signal()\n    return m\n") % (1 if pkg == "c09pa" else 2)
+            (d / "__init__.py").write_text(src)
+        sys.path.insert(0, str(root))
+        pa, pb = importlib.import_module("c09pa"), importlib.import_module("c09pb")
+        _FOREIGN.extend([pa.Unit, pb.Unit, pa.Other])
+    return _FOREIGN
 
 
 def make_env(h):
@@ -109,7 +134,9 @@ def make_env(h):
     env["NP"] = NP
     dt = {"int": int, "float": float, "str": str, "optint": Optional[int], "optstr": Optional[str], "enum": Color,
           "prefixed": h.Prefixed, "scalar": h.Scalar, "nested": NP, "module": h.Instantiable, "complex": complex,
-          "number": Union[int, float], "numlist": Tuple[Union[int, float], ...]}
+          "number": Union[int, float], "numlist": Tuple[Union[int, float], ...], "gen": h.Generator}
+    env["gunits"] = foreign_generators()
+    env["gtokens"] = {id(g): k for k, g in enumerate(env["gunits"])}
     m1 = h.Module(name="Unit1")
     m2 = h.Module(name="Unit2")
     env["units"] = [m1, m2, h.Module(name="Unit3"), h.Module(name="Unit4")]
@@ -189,6 +216,8 @@ def concretize(env, step):
                 kw[f] = env["units"][kw[f]]
             if f in kw and tag == "enum":
                 kw[f] = Color[kw[f]]
+            if f in kw and tag == "gen":
+                kw[f] = env["gunits"][kw[f]]
             if f in kw and tag in ("prefixed", "scalar") and isinstance(kw[f], list):
                 from hdl21.prefix import Prefixed, Prefix
                 kw[f] = Prefixed(number=Decimal(kw[f][0]), prefix=Prefix.from_exp(kw[f][1]))
@@ -247,7 +276,7 @@ STRS = ["x", "x b=y", "y b=z", "z", "None", "", "a=1", "x" * 119, "x" * 120, "x"
 
 
 def rich_step(rnd):
-    g = rnd.choice(["GS", "GS", "GB", "GC", "GD", "GA", "GA", "GP", "GN", "GX", "GU", "GM", "GM"])
+    g = rnd.choice(["GS", "GS", "GB", "GC", "GD", "GA", "GA", "GP", "GN", "GX", "GU", "GM", "GM", "GG", "GG"])
     form = rnd.choice(["kw", "inst"])
     if g == "GS":
         kw = {"a": rnd.choice(STRS)}
@@ -273,6 +302,10 @@ def rich_step(rnd):
         kw = {"n": rnd.choice([1, 1.0, 2, 2.0, 2.5, 0, 0.0, -0.0, 10 ** 20, 1e20])}
         if rnd.random() < 0.4:
             kw["v"] = tuple(rnd.choice([[1, 2.5], [1.0, 2.5], [1], [1.0], [0.0], [-0.0], [0]]))
+    elif g == "GG":
+        kw = {"g": rnd.choice([0, 1, 2])}
+        if rnd.random() < 0.3:
+            kw["k"] = rnd.choice([0, 1])
     elif g == "GX":
         kw = {"c": rnd.choice([1j, 2j, 1 + 1j]), "k": rnd.choice([0, 1])}
     elif g == "GU":
